@@ -9,8 +9,12 @@ import sys
 
 from harness.common import Failure, Spec, coq_list
 
-# case = {"variant": "gen"|"coro", "body": stmt, "outs": [["ok", z] | ["err", n]], "cancs": [canc], "pre": [d],
-#         "sched": [["fire", d] | ["cancel"]]}     canc = ["nothing"] | ["succeed", z] | ["fail", n]
+# case = {"variant": "gen"|"coro", "body": stmt, "outs": [["ok", z] | ["err", n] | ["errsub", n]], "cancs": [canc],
+#         "dsub": [bool], "pre": [d], "sched": [["fire", d] | ["cancel"]]}
+#   canc = ["nothing"] | ["succeed", z] | ["fail", n] | ["failsub", n]
+#   "errsub"/"failsub": the Deferred errbacks with an instance of a strict SUBCLASS of twisted.python.failure.Failure
+#   (as PB's CopiedFailure or application subclasses are); for the property, the model and the oracle this is a plain
+#   failure: the function must observe a raised exception.  dsub[d]: D[d] is an instance of a Deferred subclass.
 # stmt = ["await", d] | ["yield", z] | ["mark", n] | ["raise", n] | ["return", z] | ["returnvalue", z] | ["call", body] | ["seq", a, b]
 #      | ["try", body, handler] | ["finally", body, fin] | ["loop", n, body]
 
@@ -21,6 +25,34 @@ sys.unraisablehook = lambda *a: None
 
 class UserErr(Exception):
     pass
+
+
+class BaseErr(BaseException):
+    """an application exception that is not an Exception"""
+
+
+_SUB = {}
+
+
+def sub_failure(exc):
+    """an instance of a strict subclass of Failure wrapping exc"""
+    if "F" not in _SUB:
+        from twisted.python.failure import Failure as F
+
+        class AnnotatedFailure(F):
+            note = "extra"
+        _SUB["F"] = AnnotatedFailure
+    return _SUB["F"](exc)
+
+
+def sub_deferred_class():
+    if "D" not in _SUB:
+        from twisted.internet import defer
+
+        class TracedDeferred(defer.Deferred):
+            pass
+        _SUB["D"] = TracedDeferred
+    return _SUB["D"]
 
 
 class Tok:
@@ -40,6 +72,8 @@ def _src(s, ind, variant, defs):
         return [f"{pad}log.append('m{s[1]}')"]
     if k == "raise":
         return [f"{pad}raise UserErr({s[1]})"]
+    if k == "raisebase":
+        return [f"{pad}raise BaseErr({s[1]})"]
     if k == "return":
         return [f"{pad}return {s[1]}"]
     if k == "returnvalue":
@@ -89,6 +123,8 @@ def canon_exc(e):
     from twisted.internet import defer
     if isinstance(e, UserErr):
         return f"E{e.args[0]}"
+    if isinstance(e, BaseErr):
+        return f"B{e.args[0]}"
     if isinstance(e, defer.CancelledError):
         return "X"
     return "?" + type(e).__name__
@@ -104,7 +140,7 @@ def _oracle_return_value(v):
 
 
 def compile_f(body, variant, wrap=None, return_value=None):
-    ns = {"UserErr": UserErr, "canon": canon, "canon_exc": canon_exc,
+    ns = {"UserErr": UserErr, "BaseErr": BaseErr, "canon": canon, "canon_exc": canon_exc,
           "wrap": wrap or (lambda x: x), "returnValue": return_value or _oracle_return_value}
     exec(compile(source(body, variant), f"<c05-{variant}>", "exec"), ns)
     return ns["f"]
@@ -127,15 +163,21 @@ def impl(case) -> str:
                 dd.callback(beh[1])
             elif beh[0] == "fail":
                 dd.errback(UserErr(beh[1]))
+            elif beh[0] == "failsub":
+                dd.errback(sub_failure(UserErr(beh[1])))
         return canceller
 
-    D = [defer.Deferred(canceller=mk_canceller(d, beh)) for d, beh in enumerate(_cancs(case))]
+    dsub = case.get("dsub") or [False] * n
+    D = [(sub_deferred_class() if dsub[d] else defer.Deferred)(canceller=mk_canceller(d, beh))
+         for d, beh in enumerate(_cancs(case))]
 
     def fire(d):
         if d < n and not D[d].called:
             o = case["outs"][d]
             if o[0] == "ok":
                 D[d].callback(o[1])
+            elif o[0] == "errsub":
+                D[d].errback(sub_failure(UserErr(o[1])))
             else:
                 D[d].errback(UserErr(o[1]))
 
@@ -185,7 +227,8 @@ def sync_run(case):
         taken.add(d)
         if d in cancelled:
             b = cancs[d]
-            return ("ok", b[1]) if b[0] == "succeed" else ("err", UserErr(b[1])) if b[0] == "fail" else ("err", "X")
+            return (("ok", b[1]) if b[0] == "succeed" else ("err", UserErr(b[1])) if b[0] in ("fail", "failsub")
+                    else ("err", "X"))
         o = case["outs"][d]
         return ("ok", o[1]) if o[0] == "ok" else ("err", UserErr(o[1]))
 
@@ -209,7 +252,7 @@ def sync_run(case):
                     return
                 send, exc = e.value, None
                 continue
-            except Exception as e:          # noqa: BLE001 - the function's uncaught exception is its outcome
+            except (Exception, BaseErr) as e:   # noqa: BLE001 - the function's uncaught exception is its outcome
                 frames.pop()
                 if not frames:
                     st["res"] = "R:" + canon_exc(e)
@@ -292,8 +335,10 @@ def _rand_stmt(rng, depth, nd, fresh=None):
             return ["yield", rng.randrange(100, 110)]
         if r2 < 0.8:
             return ["mark", rng.randrange(10)]
-        if r2 < 0.9:
+        if r2 < 0.87:
             return ["raise", rng.randrange(20, 25)]
+        if r2 < 0.9:
+            return ["raisebase", rng.randrange(30, 33)]
         if r2 < 0.94 and fresh is None:
             return ["returnvalue", rng.randrange(60, 65)]
         return ["return", rng.randrange(40, 45)]
@@ -322,7 +367,12 @@ def _awaits(s):
 
 def _rand_canc(rng):
     r = rng.random()
-    return ["nothing"] if r < 0.6 else ["succeed", rng.randrange(50, 60)] if r < 0.8 else ["fail", rng.randrange(7, 9)]
+    return (["nothing"] if r < 0.6 else ["succeed", rng.randrange(50, 60)] if r < 0.8
+            else ["fail", rng.randrange(7, 9)] if r < 0.9 else ["failsub", rng.randrange(7, 9)])
+
+
+def _fail_out(rng, d):
+    return ["errsub", d] if rng.random() < 0.35 else ["err", d]
 
 
 def gen(rng, tier):
@@ -337,6 +387,7 @@ def gen(rng, tier):
         ["seq", ["try", ["await", 0], ["await", 1]], ["seq", ["yield", 7], ["await", 2]]],
         ["try", ["call", ["seq", ["await", 0], ["seq", ["await", 1], ["returnvalue", 9]]]], ["await", 2]],
         ["finally", ["call", ["finally", ["call", ["await", 0]], ["await", 1]]], ["mark", 3]],
+        ["try", ["seq", ["await", 0], ["try", ["call", ["seq", ["await", 1], ["raisebase", 31]]], ["mark", 4]]], ["mark", 5]],
     ]
     for body in small:
         ds = sorted(set(_awaits(body)))
@@ -351,8 +402,9 @@ def gen(rng, tier):
                             if rng.random() > (0.15 if tier == "quick" else 0.6):
                                 continue
                             cases.append({"variant": "gen", "body": body,
-                                          "outs": [["ok", 10 + d] if outs[d] else ["err", d] for d in range(len(ds))],
+                                          "outs": [["ok", 10 + d] if outs[d] else _fail_out(rng, d) for d in range(len(ds))],
                                           "cancs": [_rand_canc(rng) for _ in ds],
+                                          "dsub": [rng.random() < 0.3 for _ in ds],
                                           "pre": list(perm[:npre]), "sched": sched})
     for _ in range(350 if tier == "quick" else 4000):
         variant = "gen" if rng.random() < 0.6 else "coro"
@@ -361,7 +413,7 @@ def gen(rng, tier):
         body = _rand_stmt(rng, rng.randrange(1, 5), nd, fresh)
         if fresh is not None:
             nd = max(1, len(fresh))
-        outs = [["ok", 10 + d] if rng.random() < 0.65 else ["err", d] for d in range(nd)]
+        outs = [["ok", 10 + d] if rng.random() < 0.65 else _fail_out(rng, d) for d in range(nd)]
         order = list(range(nd))
         rng.shuffle(order)
         npre = rng.randrange(nd + 1)
@@ -371,12 +423,19 @@ def gen(rng, tier):
             for _ in range(rng.choice([1, 1, 2, 3])):
                 sched.insert(rng.randrange(len(sched) + 1), ["cancel"])
         cases.append({"variant": variant, "body": body, "outs": outs, "cancs": [_rand_canc(rng) for _ in range(nd)],
-                      "pre": order[:npre], "sched": sched})
+                      "dsub": [rng.random() < 0.3 for _ in range(nd)], "pre": order[:npre], "sched": sched})
     return cases
 
 
 def corpus():
     return [
+        # an awaited Deferred fails with an instance of a Failure subclass: handled / unhandled, fired later / before
+        {"variant": "gen", "body": ["try", ["await", 0], ["mark", 1]], "outs": [["errsub", 0]], "cancs": [["nothing"]],
+         "dsub": [False], "pre": [], "sched": [["fire", 0]]},
+        {"variant": "gen", "body": ["seq", ["await", 0], ["return", 1]], "outs": [["errsub", 0]], "cancs": [["nothing"]],
+         "dsub": [True], "pre": [0], "sched": []},
+        {"variant": "coro", "body": ["try", ["await", 0], ["mark", 1]], "outs": [["ok", 1]], "cancs": [["failsub", 7]],
+         "dsub": [False], "pre": [], "sched": [["cancel"]]},
         {"variant": "gen", "body": ["seq", ["try", ["await", 0], ["mark", 7]],
                                      ["finally", ["try", ["loop", 2, ["await", 1]], ["mark", 8]], ["seq", ["await", 2], ["return", 5]]]],
          "outs": [["err", 3], ["ok", 1], ["ok", 2]], "cancs": [["nothing"]] * 3, "pre": [2],
@@ -402,6 +461,8 @@ def _stmt_coq(s):
         return f"(SMark {s[1]})"
     if k == "raise":
         return f"(SRaise {s[1]})"
+    if k == "raisebase":
+        return f"(SRaiseBase {s[1]})"
     if k == "return":
         return f"(SReturn ({s[1]})%Z)"
     if k == "loop":
@@ -416,7 +477,7 @@ def _stmt_coq(s):
 
 def to_coq(case):
     def canc(c):
-        return "CNothing" if c[0] == "nothing" else f"(CSucceed ({c[1]})%Z)" if c[0] == "succeed" else f"(CFail {c[1]})"
+        return "CNothing" if c[0] == "nothing" else f"(CSucceed ({c[1]})%Z)" if c[0] == "succeed" else f"(CFail {c[1]})"  # fail / failsub
     ds = coq_list([f"({'(Val (VInt (%d)%%Z))' % o[1] if o[0] == 'ok' else '(Exc (EUser %d))' % o[1]}, {canc(c)})"
                    for o, c in zip(case["outs"], _cancs(case))], "(outcome * cbeh)")
     sched = coq_list(["SCancel" if o[0] == "cancel" else f"SFire {o[1]}" for o in case["sched"]], "sop")
